@@ -12,9 +12,13 @@ LooksV0(p) == Len(p) >= 16 /\ \A k \in 10..15 : B(p, k) = 0
 Chunks(p, slot) == [k \in 1..(Len(p) \div slot) |-> SubSeq(p, (k - 1) * slot + 1, (k - 1) * slot + 10)]
 
 PadErr(p) == TrailFF(p) > 15
-Cut(p) == IF LooksV0(p) THEN Chunks(p, 16)
-          ELSE IF TrailFF(p) > 9 THEN Chunks(SubSeq(p, 1, Len(p) - TrailFF(p)), 10)
-          ELSE Chunks(p, 10)
+\* 16-byte slots (first 10 bytes are the word), or consecutive 10-byte words with the trailing 0xFF padding cut off
+CutAs(slot16, p) == IF slot16 THEN Chunks(p, 16)
+                    ELSE IF TrailFF(p) > 9 THEN Chunks(SubSeq(p, 1, Len(p) - TrailFF(p)), 10)
+                    ELSE Chunks(p, 10)
+\* the slot size is the one the header's data format prescribes (0: 16-byte slots, 2: 10-byte words); only for a header
+\* whose data format is invalid (reported by the RDH sanity check) is it guessed from the content (named deviation: fallback)
+Cut(df, p) == CASE df = 0 -> CutAs(TRUE, p) [] df = 2 -> CutAs(FALSE, p) [] OTHER -> CutAs(LooksV0(p), p)
 
 \* offset of word i (0-based) of a packet at pktOff whose HEADER says data format df
 Slot(df) == IF df = 0 THEN 16 ELSE 10
@@ -23,6 +27,5 @@ WordOffset(pktOff, df, i) == pktOff + 64 + i * Slot(df)
 \* the protocol side: how a word list is laid out
 RECURSIVE Flat(_)
 Flat(ws) == IF ws = << >> THEN << >> ELSE Head(ws) \o Flat(Tail(ws))
-Encode(df, ws, pad) == IF df = 0 THEN Flat([i \in 1..Len(ws) |-> ws[i] \o <<0, 0, 0, 0, 0, 0>>])
-                       ELSE Flat(ws) \o [i \in 1..pad |-> 255]
+Encode(df, ws, pad) == (IF df = 0 THEN Flat([i \in 1..Len(ws) |-> ws[i] \o <<0, 0, 0, 0, 0, 0>>]) ELSE Flat(ws)) \o [i \in 1..pad |-> 255]
 =============================================================================
